@@ -1,3 +1,5 @@
+#[cfg(trusttunnel_verif)]
+use crate::verif::tokio;
 use crate::{log_utils, net_utils, tls_demultiplexer};
 use rustls::{Certificate, PrivateKey, ServerConfig};
 use std::io;
